@@ -24,7 +24,9 @@ CONSTANTS Provs, Chains, Dels, Vals,
           StakeAmts,     \* amounts used by Stake / Modify / MoveStake
           DelAmts,       \* amounts used by delegate / unbond / redelegate and the validator-side ops
           MinSelf,       \* dualstaking param MinSelfDelegation (100 in the test keepers)
-          MinSpec,       \* spec.MinStakeProvider (1000 in the mock spec)
+          MinSpec,       \* spec.MinStakeProvider of the ordinary chains (1000 in the mock spec)
+          MinSpecHigh,   \* spec.MinStakeProvider of the chains in HighChains (the driver adds such specs)
+          HighChains,    \* every entry is frozen against the minimum of its OWN chain
           Fixed,         \* FALSE: the code as it is (findings F6, stale entry on auto-unfreeze, move to the same chain);
                          \* TRUE: the code with fixes/F6_*, F6b_*, F6c_* applied
           MaxOps, GenHist
@@ -34,6 +36,7 @@ VARIABLES e, m, dg, vd, nops, hist, lastp
 vars == <<e, m, dg, vd, nops, hist, lastp>>
 
 EMPTY == "empty"
+MinSpecOf(c) == IF c \in HighChains THEN MinSpecHigh ELSE MinSpec   \* specKeeper.GetMinStake(ctx, chain)
 Vault(p) == IF p = "p1" THEN "v1" ELSE IF p = "p2" THEN "v2" ELSE "v3"
 Vaults == {Vault(p) : p \in Provs}
 Who == Dels \cup Vaults
@@ -63,7 +66,7 @@ Recompute(W, p) ==
   ELSE Ok([W EXCEPT !.e[p] = [c \in Chains |->
          IF ~W.e[p][c].on THEN W.e[p][c]
          ELSE LET dt == (W.m[p].total * W.e[p][c].stake) \div tot IN
-              [W.e[p][c] EXCEPT !.dt = dt, !.frozen = @ \/ (W.e[p][c].stake + dt < MinSpec)]]])
+              [W.e[p][c] EXCEPT !.dt = dt, !.frozen = @ \/ (W.e[p][c].stake + dt < MinSpecOf(c))]]])
 
 \* the vault delegates / unbonds through the dualstaking tx: spread uniformly over the entries
 RECURSIVE Dist(_, _, _, _, _)
@@ -151,7 +154,7 @@ StakeW(W, p, c, amt, v) ==
        IN IF amt > old.stake
           THEN LET r == DelegateFull(W1, Vault(p), v, p, amt - old.stake, TRUE) IN
                IF ~r.ok THEN Fail(W)
-               ELSE IF old.stake < MinSpec /\ old.frozen /\ amt >= MinSpec
+               ELSE IF old.stake < MinSpecOf(c) /\ old.frozen /\ amt >= MinSpecOf(c)
                     \* automatic unfreeze: the *local copy* of the entry (taken before the delegation,
                     \* old DelegateTotal) is written back
                     THEN (IF Fixed THEN Ok([r.w EXCEPT !.e[p][c].frozen = FALSE])
@@ -322,7 +325,7 @@ EntryShare(p, c) == LET tot == SumSet([x \in Chains |-> e[p][x].stake], {x \in C
 \* after a transaction that changed p's stakes or delegations
 DelegateTotals == \A p \in lastp : \A c \in Chains : (m[p].on /\ e[p][c].on) => EntryShare(p, c)
 FrozenBelowMin == \A p \in lastp : \A c \in Chains :
-                    (m[p].on /\ e[p][c].on /\ e[p][c].stake + e[p][c].dt < MinSpec) => e[p][c].frozen
+                    (m[p].on /\ e[p][c].on /\ e[p][c].stake + e[p][c].dt < MinSpecOf(c)) => e[p][c].frozen
 (* C06 (without slashing the two sides are equal) *)
 Mirror == \A w \in Who : SumSet([q \in PE |-> dg[q][w]], PE) = SumSet([v \in Vals |-> vd[w][v]], Vals)
 
